@@ -76,13 +76,21 @@ def main():
         tgts = rng2.sample(combos, 12)
         if si == 0:
             srcs, tgts = combos, combos[::7]
+        ncase = [0]
         for (sk, sf, sp), (tk, tf, tp) in itertools.product(srcs, tgts):
             for suf in SUF:
                 series = suf == " each month"
                 vals = [rng2.uniform(0.1, 50), rng2.uniform(0.1, 50), rng2.uniform(0.1, 50)]
+                ncase[0] += 1
+                if ncase[0] % 4 == 0:
+                    # whole numbers held as integers (an int array, or a plain list of ints): same quantity, same conversion
+                    vals = [rng2.randint(1, 4000), rng2.randint(1, 4000), rng2.randint(1, 4000)]
                 if series:
-                    src = Food(np.array([vals[0], 2 * vals[0]]), np.array([vals[1], 3 * vals[1]]), np.array([vals[2], vals[2]]),
-                               sk + suf, sf + suf, sp + suf)
+                    cols = [[vals[0], 2 * vals[0]], [vals[1], 3 * vals[1]], [vals[2], vals[2]]]
+                    if ncase[0] % 8 == 0:
+                        src = Food(cols[0], cols[1], cols[2], sk + suf, sf + suf, sp + suf)
+                    else:
+                        src = Food(np.array(cols[0]), np.array(cols[1]), np.array(cols[2]), sk + suf, sf + suf, sp + suf)
                 else:
                     src = Food(vals[0], vals[1], vals[2], sk + suf, sf + suf, sp + suf)
                 before = (np.array(src.kcals).copy(), list(src.units))
